@@ -1,10 +1,19 @@
 import Driver.Proto
+import Driver.UtilC14
 import Dawgs.Model.C14
 /-! Model driver for C14 (suite `c14`): runs the concrete model `B` on the same op lines as the Go
 harness (`harness/c14.go`). The live definitions are the repaired `DirectionBoth` ones (`fixed = true`);
 `mode old` / suite `c14old` run the pre-789c790 definitions (for the `…_old` replays). -/
 namespace Driver.C14
 open Dawgs.C14
+open Driver.UtilC14
+
+/-- a projection handle as an IMMUTABLE value: accumulated deletions and the (never changing) argument bitmaps -/
+structure HProj where
+  dn : List Nat := []
+  de : List Nat := []
+  argN : List Nat := []
+  argE : List Nat := []
 
 structure St where
   fixed : Bool := true
@@ -12,7 +21,8 @@ structure St where
   am : AdjMap := {}
   csrb : CsrB := {}
   ts : TS := {}
-  proj : Proj := { origin := {}, delNodes := [], delEdges := [] }
+  handles : List (String × HProj) := [("proj", {})]
+  snapOn : Bool := false
 
 /-- a container seen through the `DirectedGraph` interface -/
 structure View where
@@ -32,14 +42,18 @@ def parseIds (s : String) : Option (List Nat) :=
 def amView (g : AdjMap) : View := { nodes := g.nodes, numNodes := g.numNodes, adj := g.adjacent }
 def csrView (g : Csr) : View := { nodes := g.nodes, numNodes := g.numNodes, adj := g.adjacent }
 
-def St.curProj (st : St) : Proj := { st.proj with origin := st.ts }
+def St.projOf (st : St) (name : String) : Option Proj :=
+  (st.handles.lookup name).map (fun h => { origin := st.ts, delNodes := h.dn, delEdges := h.de })
+
+def St.curProj (st : St) : Proj := (st.projOf "proj").getD { origin := st.ts, delNodes := [], delEdges := [] }
+
+def setHandle (hs : List (String × HProj)) (name : String) (h : HProj) : List (String × HProj) := hset hs name h
 
 def St.view (st : St) : String → Option View
   | "am" => some (amView st.am)
   | "csr" => some (csrView st.csrb.build)
   | "ts" => some { nodes := st.ts.nodes, numNodes := st.ts.numNodes, adj := st.ts.adjacent st.fixed }
-  | "proj" => some { nodes := st.curProj.nodes, numNodes := st.curProj.numNodes, adj := st.curProj.adjacentT st.tomb st.fixed }
-  | _ => none
+  | name => (st.projOf name).map (fun p => { nodes := p.nodes, numNodes := p.numNodes, adj := p.adjacentT st.tomb st.fixed })
 
 def perNode (v : View) (f : Nat → String) : String :=
   if v.nodes.isEmpty then "-" else " ".intercalate (v.nodes.map (fun n => s!"{n}:{f n}"))
@@ -91,8 +105,7 @@ def fmtPTerm (t : PTerm) : String := s!"{t.node}@{t.dist}*{t.weight}"
 
 def St.adjE (st : St) : String → Option (Nat → Dir → List Edge)
   | "ts" => some (st.ts.adjacentEdgesT st.tomb)
-  | "proj" => some (st.curProj.adjacentEdgesT st.tomb)
-  | _ => none
+  | name => (st.projOf name).map (fun p => p.adjacentEdgesT st.tomb)
 
 def traverse (st : St) (bfs : Bool) (c dir md root filt : String) : String :=
   match st.adjE c, parseDir dir, md.toInt?, root.toNat?, parseFilter filt with
@@ -114,10 +127,40 @@ def St.numEdges (st : St) : String → Option Nat
   | "am" => some (if st.fixed then st.am.numEdges else st.am.numEdgesOld)
   | "csr" => some st.csrb.build.numEdges
   | "ts" => some (st.ts.numEdgesT st.tomb)
-  | "proj" => some (st.curProj.numEdgesT st.tomb)
-  | _ => none
+  | name => (st.projOf name).map (fun p => p.numEdgesT st.tomb)
 
-def step (st : St) (ts : List String) : St × String :=
+def dirOf : String → Dir
+  | "out" => .out
+  | "in" => .inn
+  | _ => .both
+
+/-- the canonical view of a handle: every read method of the `Triplestore` interface -/
+def viewStr (st : St) (p : Proj) : String :=
+  viewOf p.numNodes p.nodes (p.numEdgesT st.tomb)
+    (((p.origin.edgesT st.tomb).filter p.alive).map (fun e => (e.id, e.start, e.stop)))
+    (fun v d => sofList (p.adjacentT st.tomb st.fixed v (dirOf d)))
+    (fun v d => (p.adjacentEdgesT st.tomb v (dirOf d)).map (·.id))
+
+/-- `PARENT.Projection(dn, de)`: the child's deletions are the parent's plus the new ones; the parent is untouched
+and the argument bitmaps stay what the caller put in. -/
+def derive (st : St) (name parent dn de : String) : St × String :=
+  match parseIds dn, parseIds de with
+  | some dn, some de =>
+    let base : Option HProj := if parent == "store" then some {} else st.handles.lookup parent
+    match base with
+    | some b =>
+      let h : HProj := { dn := sunion b.dn (sofList dn), de := sunion b.de (sofList de), argN := sofList dn, argE := sofList de }
+      ({ st with handles := setHandle st.handles name h, snapOn := true }, "ok")
+    | none => (st, "bad-op")
+  | _, _ => (st, "bad-op")
+
+def digests (st : St) : String :=
+  " ".intercalate ((sortNames (st.handles.map (·.1))).filterMap (fun n =>
+    match st.projOf n, st.handles.lookup n with
+    | some p, some h => some s!"{n}={digest (viewStr st p)}:{digest (argsOf h.argN h.argE)}"
+    | _, _ => none))
+
+def step0 (st : St) (ts : List String) : St × String :=
   match ts with
   | ["graph"] => ({ fixed := st.fixed, tomb := st.tomb }, "ok")
   | ["mode", "tomb"] => ({ st with tomb := true }, "ok")
@@ -133,13 +176,12 @@ def step (st : St) (ts : List String) : St × String :=
   | ["tsdel", id] => match id.toNat? with
       | some id => ({ st with ts := st.ts.deleteEdge id }, "ok")
       | none => (st, "bad-op")
-  | ["proj", dn, de] => match parseIds dn, parseIds de with
-      | some dn, some de => ({ st with proj := { origin := {}, delNodes := sofList dn, delEdges := sofList de } }, "ok")
-      | _, _ => (st, "bad-op")
-  | ["proj2", dn, de] => match parseIds dn, parseIds de with
-      -- `projection.Projection(dn, de)`: clone and `Or`
-      | some dn, some de => ({ st with proj := { origin := {}, delNodes := sunion st.proj.delNodes (sofList dn),
-                                                  delEdges := sunion st.proj.delEdges (sofList de) } }, "ok")
+  | ["proj", dn, de] => derive st "proj" "store" dn de
+  | ["proj2", dn, de] => derive st "proj" "proj" dn de
+  | ["proj", name, parent, dn, de] =>
+      if name == "am" || name == "csr" || name == "ts" || name == "store" then (st, "bad-op") else derive st name parent dn de
+  | ["snap", name] => match st.projOf name, st.handles.lookup name with
+      | some p, some h => (st, viewStr st p ++ ";" ++ argsOf h.argN h.argE)
       | _, _ => (st, "bad-op")
   | ["nodes", c] => match st.view c with
       | some v => (st, s!"n={v.numNodes} {natList v.nodes}")
@@ -181,7 +223,7 @@ def step (st : St) (ts : List String) : St × String :=
   | ["toseg", ns, es] => match parseIds ns, parseIds es with
       | some ns, some es => match toSegment ns es with
         | some sg => (st, s!"nodes={natList (segNodes sg)} edges={natList (segEdges sg)}")
-        | none => (st, "panic")
+        | none => (st, "index-panic")
       | _, _ => (st, "bad-op")
   | ["tsbfs", c, d, md, root, filt] => (st, traverse st true c d md root filt)
   | ["tsdfs", c, d, md, root, filt] => (st, traverse st false c d md root filt)
@@ -203,6 +245,11 @@ def step (st : St) (ts : List String) : St × String :=
         (st, s!"written={counts.foldl (· + ·) 0} read=0 -")
       | _, _ => (st, "bad-op")
   | _ => (st, "bad-op")
+
+/-- one op, then (once a projection was requested in this case) the digest of EVERY live handle -/
+def step (st : St) (ts : List String) : St × String :=
+  let (st', ans) := step0 st ts
+  if st'.snapOn && ans != "bad-op" then (st', ans ++ " ## " ++ digests st') else (st', ans)
 
 def suite : Suite := { σ := St, init := {}, step := step }
 /-- the same model started with the pre-repair definitions (selected by `VERIF_C14_MODE=old`). -/
